@@ -117,6 +117,15 @@ def all_cells():
                 cells.append(("C-overlap", role, first, second))
                 # ... and the suspended drain() of the first then ends the way asyncio ends it for a transport closed under a writer
                 cells.append(("C-overlap", role, first, second, "drain-raises"))
+    # C'': the connection is taken down while the READER is suspended in the drain() of something it writes itself (the Logon reply,
+    # a ResendRequest): what the reader does when it resumes must not undo the disconnect
+    for role in ("acceptor", "initiator"):
+        for first in ("reader-logon-reply", "reader-resend-request", "reader-testrequest-reply"):
+            if first == "reader-logon-reply" and role != "acceptor":
+                continue
+            for second in ("app-disconnect", "app-disconnect-logout", "eof"):
+                for after in ("drain-raises", "drain-returns"):
+                    cells.append(("C-reader-parked", role, first, second, after))
     # C: other disconnect causes, then continuation
     for role in ("acceptor", "initiator"):
         for st in ("active", "awaiting"):
@@ -656,6 +665,78 @@ async def cell_C_overlap(acc, clock, cell, cid):
     await continuation(acc, clock, ep, j, peer, cid, w, f"C-overlap/{first}/{second}")
 
 
+async def cell_C_reader_parked(acc, clock, cell, cid):
+    import asyncio
+    from asyncfix.connection import ConnectionState as CS
+    from vf.sim.net import settle
+    from vf.sim.sched import Sched
+    _, role, first, second, after = cell
+    b = await build(clock, role, "nce" if first == "reader-logon-reply" else "active")
+    if b is None:
+        acc.add("start_state_not_reached")
+        return
+    ep, j, peer = b
+    o = Obs(ep, j)
+    E_ = o.live_in
+    sched = Sched()
+    writer0 = ep.vf_writer
+
+    async def drain_hook():
+        await sched.wait("drain")
+        if writer0.closed and after == "drain-raises":
+            raise ConnectionResetError("Connection lost")
+    ep.vf_writer.drain_hook = drain_hook
+    if first == "reader-logon-reply":
+        ep.vf_reader.feed(mkframe("A", E_, "PEER", "ME", [(98, 0), (108, 30)]))
+    elif first == "reader-resend-request":
+        ep.vf_reader.feed(mkframe("D", E_ + 3, "PEER", "ME", [(11, "ahead")]))
+    else:
+        ep.vf_reader.feed(mkframe("1", E_, "PEER", "ME", [(112, "PING")]))
+    await settle()
+    parked = len(sched.gates)
+    tasks = []
+
+    async def guarded(coro):
+        try:
+            await coro
+        except Exception as e:
+            ep.ev.append(("disconnect-raised", type(e).__name__))
+    loop = asyncio.get_running_loop()
+    if second == "eof":
+        ep.vf_reader.feed_eof()
+    elif second == "app-disconnect":
+        tasks.append(loop.create_task(guarded(ep.disconnect(CS.DISCONNECTED_BROKEN_CONN))))
+    else:
+        tasks.append(loop.create_task(guarded(ep.disconnect(CS.DISCONNECTED_WCONN_TODAY, logout_message="closing"))))
+    await settle()
+    for _ in range(12):
+        gs = sched.enabled_gates()
+        if not gs:
+            break
+        sched.release(gs[0])
+        await settle()
+    if second == "eof":
+        await settle()
+    acc.oracle("C:disconnect-once")
+    n = Obs(ep, j)
+    evs = ep.ev[o.ev:]
+    w = {"cell": cell, "reader_parked_in_drain": parked, "events": evs, "tap": [fixwire.show(x)[:90] for x in ep.vf_tap.frames(o.tap)], "state": [o.state.name, n.state.name],
+         "swallowed": ep.vf_log.exceptions[-2:]}
+    if parked == 0:
+        acc.add("overlap_not_reached")
+        return
+    acc.add("disconnects_while_the_reader_was_parked_in_its_own_drain")
+    if n.state > CS.DISCONNECTED_BROKEN_CONN:
+        return acc.violation("disconnect-undone-by-the-suspended-reader", f"{second} while the reader was suspended in the drain() of its {first[7:]}: the connection ends in "
+                             f"state {n.state.name} with writer {'present' if ep._socket_writer is not None else 'gone'}", w, cid)
+    if n.disc != o.disc + 1:
+        return acc.violation("disconnect-undone-by-the-suspended-reader:on_disconnect-count", f"on_disconnect called {n.disc - o.disc} times", w, cid)
+    idx = max((i for i, e in enumerate(evs) if e[0] == "disconnect"), default=-1)
+    later = [e for e in evs[idx + 1:] if e[0] in ("logon", "msg") or (e[0] == "state" and e[1] not in ("DISCONNECTED_BROKEN_CONN", "DISCONNECTED_WCONN_TODAY", "DISCONNECTED_NOCONN_TODAY"))]
+    if idx >= 0 and later:
+        return acc.violation("activity-after-disconnect:suspended-reader-resumes", f"after on_disconnect: {later}", w, cid)
+
+
 async def cell_C(acc, clock, cell, cid):
     from asyncfix.connection import ConnectionState as CS
     from vf.sim import endpoint as E
@@ -762,6 +843,8 @@ def run_shard(spec, acc):
                     await cell_A_send(acc, clock, cell, cid)
                 elif cell[0] == "A-send-in-logon":
                     await cell_A_send_in_logon(acc, clock, cell, cid)
+                elif cell[0] == "C-reader-parked":
+                    await cell_C_reader_parked(acc, clock, cell, cid)
                 elif cell[0] == "C-overlap":
                     await cell_C_overlap(acc, clock, cell, cid)
                 elif cell[0] == "B-drainfail":
